@@ -30,3 +30,137 @@ Definition judge_c13 (c : c13case) : verdict :=
       else if negb (Bool.eqb (valid_original_document d) c') then SpecFail 5
       else Pass
   end.
+
+(* ---- C10: composition ---- *)
+From Sidetree Require Import Sidetree.Rfc6902 Sidetree.Builders.
+
+(* the documented semantics: per-action functions, RFC 6902 for ietf-json-patch *)
+Definition spec_apply_patch (doc : obj) (pj : json) : option obj :=
+  match pj with
+  | JObj p =>
+      match get_action p, get_value p with
+      | Some AJsonPatch, Some (JArr ops) => if all_objects ops then rfc_apply doc ops else None
+      | Some AJsonPatch, Some _ => None
+      | _, _ => apply_patch doc pj
+      end
+  | _ => None
+  end.
+
+Fixpoint spec_apply_patches (doc : obj) (ps : list json) : option obj :=
+  match ps with
+  | [] => Some doc
+  | p :: r => match spec_apply_patch doc p with Some d => spec_apply_patches d r | None => None end
+  end.
+
+Definition opt_obj_equiv (a b : option obj) : bool :=
+  match a, b with
+  | Some x, Some y => obj_equiv x y
+  | None, None => true
+  | _, _ => false
+  end.
+
+Definition ids_unique (doc : obj) : bool :=
+  nodup_str (map entry_id (parse_objects (lookup "publicKey" doc))) &&
+  nodup_str (map entry_id (parse_objects (lookup "service" doc))).
+
+(* first json-patch deviation along the patch list, following the mirror's documents *)
+Fixpoint deviation_in (doc : obj) (ps : list json) : nat :=
+  match ps with
+  | [] => 0
+  | pj :: r =>
+      let here :=
+        match pj with
+        | JObj p => match get_action p, get_value p with
+                    | Some AJsonPatch, Some (JArr ops) => first_deviation (JObj doc) ops
+                    | _, _ => 0
+                    end
+        | _ => 0
+        end in
+      if Nat.eqb here 0 then
+        match apply_patch doc pj with Some d => deviation_in d r | None => 0 end
+      else here
+  end.
+
+Inductive c10case := mk_c10 (doc : obj) (patches : list json) (impl : option obj).
+
+Definition judge_c10 (c : c10case) : verdict :=
+  match c with
+  | mk_c10 doc ps impl =>
+      if negb (patches_in_domain ps) then Known 8          (* copy node sharing of the pinned library *)
+      else
+      let spec := spec_apply_patches doc ps in
+      let mirror := apply_patches doc ps in
+      match impl with
+      | Some r => if andb (ids_unique doc) (negb (ids_unique r)) then SpecFail 2 else
+                  if opt_obj_equiv spec impl then Pass
+                  else if andb (opt_obj_equiv mirror impl) (negb (Nat.eqb (deviation_in doc ps) 0)) then Known (deviation_in doc ps)
+                  else SpecFail 1
+      | None => if opt_obj_equiv spec impl then Pass
+                else if andb (opt_obj_equiv mirror impl) (negb (Nat.eqb (deviation_in doc ps) 0)) then Known (deviation_in doc ps)
+                else SpecFail 1
+      end
+  end.
+
+(* ---- C11: validated ietf-json-patch never alters keys or services ---- *)
+
+Inductive c11case := mk_c11 (doc : obj) (patch : json) (impl_valid : bool) (impl : option obj).
+
+Definition opt_json_equiv' (a b : option json) : bool :=
+  match a, b with
+  | Some x, Some y => json_equiv x y
+  | None, None => true
+  | _, _ => false
+  end.
+
+Definition judge_c11 (c : c11case) : verdict :=
+  match c with
+  | mk_c11 doc p iv impl =>
+      let frame_ok :=
+        match impl with
+        | Some r => andb (opt_json_equiv' (lookup "publicKey" doc) (lookup "publicKey" r))
+                         (opt_json_equiv' (lookup "service" doc) (lookup "service" r))
+        | None => true
+        end in
+      if andb iv (negb frame_ok) then SpecFail 1
+      else if negb (Bool.eqb (validate_with [] p) iv) then Mismatch 2
+      else if negb (patches_in_domain [p]) then OutOfDomain 3
+      else if andb iv (negb (opt_obj_equiv (apply_patches doc [p]) impl)) then Mismatch 4
+      else Pass
+  end.
+
+(* ---- C14: round trips ---- *)
+
+Inductive c14case :=
+| mk_c14doc (doc : obj) (in_class : bool) (impl_patches : option (list json)) (impl_applied : option obj)
+            (all_valid : bool) (bytes_roundtrip : bool)
+| mk_c14bytes (v : json) (impl_ok expect : bool)
+| mk_c14ctor (patch : json) (oracle : url_table) (impl_valid : bool).
+
+Definition list_json_equiv (a b : list json) : bool := json_equiv (JArr a) (JArr b).
+
+Definition judge_c14 (c : c14case) : verdict :=
+  match c with
+  | mk_c14doc doc in_class ips applied all_valid rt =>
+      let m := patches_from_document doc in
+      match ips with
+      | None => if negb (String.eqb (entry_id doc) "") then Pass          (* documents with an id are refused *)
+                else if in_class then SpecFail 1 else
+                match m with None => Pass | Some _ => Mismatch 2 end
+      | Some ps =>
+          if negb (String.eqb (entry_id doc) "") then SpecFail 3
+          else if andb in_class (negb (opt_obj_equiv applied (Some doc))) then SpecFail 4
+          else if andb in_class (negb all_valid) then SpecFail 5
+          else if negb rt then SpecFail 6
+          else match m with
+               | Some mps => if list_json_equiv mps ps then Pass else Mismatch 7
+               | None => Mismatch 7
+               end
+      end
+  | mk_c14bytes v impl_ok expect =>
+      if negb (Bool.eqb impl_ok expect) then SpecFail 8
+      else let model := match v with JObj p => match get_action p, get_value p with Some _, Some _ => true | _, _ => false end | _ => false end in
+           if negb (Bool.eqb model impl_ok) then Mismatch 9 else Pass
+  | mk_c14ctor p t iv =>
+      if negb iv then SpecFail 10
+      else if negb (validate_with t p) then Mismatch 11 else Pass
+  end.
